@@ -290,7 +290,7 @@ def generate(rng, cfg):
         m.add(k, v)
     weights = [("set", 12), ("del", 3), ("bad_set", 2), ("roundtrip", 1)]
     if exotic_ops:
-        weights += [("add", 3), ("setitem", 2)]
+        weights += [("add", 3), ("setitem", 2), ("add_foreign", 1.5)]
     nops = rng.randint(2, cfg.get("max_ops", 12))
     attrs = ["start", "end", "DTSTART", "END", "DURATION"]
     names = ["DTSTART", "END", "DURATION"]
@@ -321,6 +321,10 @@ def generate(rng, cfg):
         elif op == "roundtrip":
             step = [0, "roundtrip", {}]
             m.roundtrip()
+        elif op == "add_foreign":
+            # the end property of the *other* component class (a DUE in a VEVENT, e.g. after Event(todo)): no accessor
+            # looks at it, and it must not get in the way of the three that count
+            step = [0, "add_foreign", {"v": _val(rng, aware)}]
         elif op == "add":
             name = rng.choice(names)
             v = rng.choice(DURS_API) if name == "DURATION" else _val(rng, aware)
@@ -511,6 +515,11 @@ def execute(run, res):
                 res.violate(f"C16/bad_set:{attr}/accepted", stepno, f"value {a['v']!r} was not rejected")
             if snap != [_stored(comp, n) for n in ("DTSTART", EN, "DURATION")]:
                 res.violate(f"C16/bad_set:{attr}/not-atomic", stepno, "state changed by a rejected call")
+        elif op == "add_foreign":
+            if cls == "Journal":
+                continue
+            comp.add("DUE" if cls == "Event" else "DTEND", to_py(a["v"]))
+            res.probe("end_property_of_the_other_class_present")
         elif op == "add":
             if cls == "Journal" and a["name"] != "DTSTART":
                 continue
